@@ -97,14 +97,22 @@ Section WithOracles.
     match fuel with
     | O => Raise OutOfFuel
     | S n =>
-        match find_tclass e cn, v with
-        | Some c, PStruct _ a =>
-            let inh' := special (t_mapper c) ++ inh in
-            (* chained and function mappers: outside the model *)
-            _ <- (if mapper_simple (t_mapper c) then Ok tt else Raise Unmodelled) ;;
-            r <- ser_attrs (ser_val (ser_regular n inh') (ser_regular n [])) inh c a ;;
-            Ok (dict_of r)
-        | _, _ => Raise Unmodelled
+        match v with
+        | PStruct rn a =>
+            (* serialize_val: an instance of a SUBCLASS of the declared class (a differently named class of
+               the environment) is serialized as its own class, with that class's aggregated mapper only *)
+            let '(cn, inh) := if pystr_eqb rn cn then (cn, inh)
+                              else match find_tclass e rn with Some _ => (rn, []) | None => (cn, inh) end in
+            match find_tclass e cn with
+            | Some c =>
+                let inh' := special (t_mapper c) ++ inh in
+                (* chained and function mappers: outside the model *)
+                _ <- (if mapper_simple (t_mapper c) then Ok tt else Raise Unmodelled) ;;
+                r <- ser_attrs (ser_val (ser_regular n inh') (ser_regular n [])) inh c a ;;
+                Ok (dict_of r)
+            | None => Raise Unmodelled
+            end
+        | _ => Raise Unmodelled
         end
     end.
 
